@@ -129,6 +129,12 @@ def run_one(check, case):
         raise
     except RecursionError as e:
         return FAIL("escaped:RecursionError", "RecursionError escaped from the library call")
+    except BaseException as e:  # lab guards (SpinGuard / BudgetExceeded) escaping a module: inconclusive
+        if type(e).__name__ in ("SpinGuard", "BudgetExceeded"):
+            from vlib.core import SKIP
+
+            return SKIP(type(e).__name__)
+        raise
     except Exception as e:  # noqa
         if _classify_exception(e) == "repo":
             tb = traceback.extract_tb(e.__traceback__)
